@@ -10,7 +10,7 @@ const char *verif_rule =
     "(next request submitted 0..3 s after the previous concluded); server style per request in {piggybacked, empty ACK + separate CON, empty ACK + separate NON, "
     "separate CON without ACK, silent}, answering every received copy (retransmitted/duplicated requests get the same reply again); scripted response mids incl. 0 and "
     "reuse; per datagram fate deliver/drop/dup/delay < ACK_TIMEOUT; response handler verdict OK/FAIL from the tape; or (B) libcoap client against a libcoap server whose "
-    "handler answers directly or through coap_register_async + delayed trigger, same fault plans. Oracle per application token at quiescence: response-handler calls == "
+    "handler answers directly or through an async entry (coap_register_async with a delay, or - every second case - without a time and coap_async_trigger() by the application later), same fault plans. (B) also: the server application produces at most one response per request plus one per copy of the request that arrived after the first answer. Oracle per application token at quiescence: response-handler calls == "
     "(number of distinct-by-message-id ACK-piggybacked/CON responses delivered; at most 1 from the scripted server) + (number of NON response datagrams delivered); NACK(TOO_MANY_RETRIES) exactly once iff no ACK/response for "
     "the request was ever delivered, never both; no request transmission after a response was delivered; every delivered CON response answered by ACK (RST when the verdict was FAIL) "
     "with its mid, duplicates included. Non-trivial = a lost or duplicated datagram hit an ACK, an empty ACK or a separate response; distinct = by full wire trace";
@@ -43,6 +43,7 @@ struct Case {
   size_t next = 0;
   std::vector<uint32_t> gaps;
   bool modeB = false;
+  bool trigger_async = false;   // (B) the server application registers its async entries without a time and triggers them itself later
   int foreign_token_calls = 0;
   std::function<void()> submit_next;
 } *G = nullptr;
@@ -92,8 +93,23 @@ void srv_handler(coap_resource_t *, coap_session_t *session, const coap_pdu_t *r
   if (query && query->length > 2 && query->s[0] == 'd' && query->s[1] == '=') delay = (uint32_t)atoi(std::string((const char *)query->s + 2, query->length - 2).c_str());
   coap_async_t *async = coap_find_async(session, coap_pdu_get_token(request));
   if (delay && !async) {
-    async = coap_register_async(session, request, (coap_tick_t)delay);
-    if (async) return;  // empty ACK now, handler is called again when the delay expired
+    if (G->trigger_async) {
+      // entry without a time (never fires by itself); the application triggers it when its answer is ready.  A copy of the request that arrives
+      // in between must not reach this handler (libcoap repeats the empty ACK)
+      async = coap_register_async(session, request, 0);
+      if (async) {
+        coap_bin_const_t tk = coap_pdu_get_token(request);
+        std::vector<uint8_t> tok(tk.s, tk.s + tk.length);
+        G->w->after(delay, [session, tok, async]() {
+          coap_bin_const_t t2 = {tok.size(), tok.data()};
+          if (G && coap_find_async(session, t2) == async) coap_async_trigger(async);
+        });
+        return;
+      }
+    } else {
+      async = coap_register_async(session, request, (coap_tick_t)delay);
+      if (async) return;  // empty ACK now, handler is called again when the delay expired
+    }
   }
   // (the async entry of a delayed request is removed by libcoap when this handler returns)
   {
@@ -118,6 +134,7 @@ int verif_case(const uint8_t *tape, size_t tlen, Info *info) {
   World w;
   cs.w = &w;
   cs.modeB = t.pick({3, 1}) == 1;
+  cs.trigger_async = cs.modeB && tlen > 0 && (tape[tlen - 1] & 1);   // (last tape byte: earlier tapes keep their plans)
   seed_prng(t.u32(), t.chance(24) ? std::vector<uint8_t>{0xff, 0xff} : std::vector<uint8_t>{});
   coap_context_t *ctx = coap_new_context(nullptr);
   if (!ctx) return OUT_OF_DOMAIN;
@@ -374,6 +391,29 @@ int verif_case(const uint8_t *tape, size_t tlen, Info *info) {
         }
         if (!sent) { info->fail("server handler produced the response for tok=%s at %llu but it was never transmitted", tk.c_str(), (unsigned long long)c.t); verdict = VIOLATION; break; }
         info->label("B:server-response-transmitted");
+      }
+    }
+    // (B) one request, one answer from the libcoap server: a copy of the request (retransmission / network duplicate) that reaches the server while
+    // its async entry is pending is answered by the empty ACK again and does not produce a response; only a copy that arrives after the answer was
+    // produced may be processed anew (libcoap keeps no record of finished exchanges - recorded under C09, redelivered-request-message-processed-again)
+    if (verdict == HELD && cs.modeB) {
+      std::map<std::string, std::vector<size_t>> answers_at, copies_at;   // token -> trace positions
+      for (size_t i = 0; i < w.trace.size(); i++) {
+        auto &e = w.trace[i];
+        ref::Msg m;
+        if (e.kind == EV_CALLBACK && e.note.compare(0, 17, "SRV-RESPONSE tok=") == 0) answers_at[e.note.substr(17)].push_back(i);
+        else if (e.kind == EV_READ && e.dst == srv && simh::parse(e.data, &m) && ref::is_request(m.code)) copies_at[hex(m.token, 8)].push_back(i);
+      }
+      for (auto &kv : answers_at) {
+        size_t later = 0;
+        for (size_t c : copies_at[kv.first]) if (c > kv.second.front()) later++;
+        if (kv.second.size() > 1 + later) {
+          info->fail("server application produced %zu responses for the request tok=%s; %zu cop%s of the request reached the server, %zu of them after the first answer", kv.second.size(), kv.first.c_str(),
+                     copies_at[kv.first].size(), copies_at[kv.first].size() == 1 ? "y" : "ies", later);
+          verdict = VIOLATION;
+          break;
+        }
+        if (copies_at[kv.first].size() > 1 + later) info->label("B:request-copy-while-async-pending");
       }
     }
     // FAIL verdict => RST for the first delivery
